@@ -63,6 +63,7 @@ type ScriptConn struct {
 	Glued    bool // fault delivered together with the last chunk
 	MaxRead  int  // largest request seen
 	Reads    int
+	Delivered int // bytes handed to the reader so far
 	Events   []Event
 	FailOp   int
 	FailKind int // 0 error, 1 timeout, 2 short write (ShortN bytes) + error
@@ -104,6 +105,7 @@ func (c *ScriptConn) Read(p []byte) (int, error) {
 	ch := c.Chunks[0]
 	if len(ch) <= len(p) {
 		n := copy(p, ch)
+		c.Delivered += n
 		c.Chunks = c.Chunks[1:]
 		if len(c.Chunks) == 0 && c.Glued {
 			c.Glued = false
@@ -112,6 +114,7 @@ func (c *ScriptConn) Read(p []byte) (int, error) {
 		return n, nil
 	}
 	n := copy(p, ch[:len(p)])
+	c.Delivered += n
 	c.Chunks[0] = ch[n:]
 	return n, nil
 }
